@@ -393,6 +393,44 @@ var failGen = rapid.Custom(func(t *rapid.T) FailOp {
 	return op
 })
 
+// spellGen: the way one path argument is written (the decorations are not applied to the source directory, see Spelling).
+var spellGen = rapid.Custom(func(t *rapid.T) Spell {
+	s := Spell{Rel: rapid.Bool().Draw(t, "relative")}
+	if rapid.IntRange(0, 2).Draw(t, "decorated") > 0 {
+		s.Decor = rapid.SampledFrom(Decors[1:]).Draw(t, "decor")
+	}
+	if rapid.Bool().Draw(t, "trailing") {
+		s.Trail = rapid.SampledFrom(Trails[1:]).Draw(t, "trail")
+	}
+	return s
+})
+
+// echoGen: an entry named after the source directory - its last component, its spelling in the call, its absolute path -
+// as a chain of directories with a file inside or as a file name that contains the string, bare or with the usual affixes,
+// directly in a directory of the tree or below a folder such as "backup".
+var echoGen = rapid.Custom(func(t *rapid.T) Echo {
+	e := Echo{Dir: -1, Kind: rapid.SampledFrom([]string{"last", "spelled", "spelled", "abs", "abs"}).Draw(t, "echoKind")}
+	if rapid.IntRange(0, 2).Draw(t, "inDir") > 0 {
+		e.Dir = rapid.IntRange(0, 7).Draw(t, "dir")
+	}
+	switch rapid.IntRange(0, 3).Draw(t, "under") {
+	case 0:
+		e.Under = Name(rapid.SampledFrom([]string{"backup", ".snapshot", "old", "src", "dest"}).Draw(t, "underName"))
+	case 1:
+		e.Under = Name(genName(t))
+	}
+	if rapid.IntRange(0, 2).Draw(t, "affixed") == 0 {
+		pre, suf := genAffixes(t)
+		e.Pre, e.Suf = Name(pre), Name(suf)
+	}
+	e.AsFile = rapid.IntRange(0, 2).Draw(t, "asFile") == 0
+	if !e.AsFile && rapid.Bool().Draw(t, "ownFileName") {
+		e.File = Name(genName(t))
+	}
+	e.Content = smallContentGen.Draw(t, "content")
+	return e
+})
+
 func genTree(t *rapid.T) TreeCase {
 	var c TreeCase
 	if rapid.IntRange(0, 5).Draw(t, "haveDirs") > 0 {
@@ -434,6 +472,19 @@ func genTree(t *rapid.T) TreeCase {
 	}
 	c.Recursive = rapid.IntRange(0, 2).Draw(t, "recursive") > 0
 	c.TrailingSlash = rapid.Bool().Draw(t, "trailingSlash")
+	// a third of the cases spell the arguments the way callers do: from a working directory, relative, with "./", "//",
+	// "/./", a ".." detour, trailing slashes (the source directory: relative or absolute, clean)
+	if rapid.IntRange(0, 2).Draw(t, "spelled") == 0 {
+		c.Spelling.Cwd = rapid.SampledFrom(Cwds).Draw(t, "cwd")
+		c.Spelling.Src.Rel = c.Spelling.Cwd != "" && rapid.IntRange(0, 3).Draw(t, "srcRelative") > 0
+		c.Spelling.Zip = spellGen.Draw(t, "zipSpell")
+		c.Spelling.Zip.Trail = ""
+		c.Spelling.Dest = spellGen.Draw(t, "destSpell")
+	}
+	// a quarter of the trees hold entries named after the source directory itself
+	if rapid.IntRange(0, 3).Draw(t, "echoes") == 0 {
+		c.Echo = rapid.SliceOfN(echoGen, 1, 2).Draw(t, "echoList")
+	}
 	c.DestExists = rapid.Bool().Draw(t, "destExists")
 	// extraction over an existing directory / a second zip+unzip round after the source changed
 	if rapid.IntRange(0, 2).Draw(t, "prepopulate") == 0 {
@@ -470,6 +521,11 @@ func genTree(t *rapid.T) TreeCase {
 		}
 		for _, l := range c.Links {
 			cands = append(cands, string(l.Name))
+		}
+		for _, e := range c.Echo {
+			if !e.AsFile && e.File == "" {
+				cands = append(cands, "src/f.txt")
+			}
 		}
 		cands = append(cands, "f2", ".txt", "", "/f")
 		s := rapid.SampledFrom(cands).Draw(t, "suffixOf")
@@ -656,6 +712,86 @@ func TestC20TreeManyFiles(t *testing.T) {
 		n++
 	}
 	st.SetExhaustive("trees_with_more_files_than_descriptors", map[string]any{"cases_this_shard": n, "shards": shards})
+}
+
+// TestC20TreeSpellings: one small tree that echoes the source directory in every way (a directory named like it, its
+// spelling in the call as a directory chain and inside a file name, a mirror of its absolute path below "backup" and
+// directly below a sub-directory, files whose names contain its name) under a systematic walk through working directory x
+// spelling of the source (absolute / relative, with and without the trailing slash) x spelling of the archive x spelling
+// of the destination (every decoration x every trailing form, present or absent before the call) x filter x recursive
+// flag, one round or two rounds with edits in between. The lists are stepped through together (the destination list with an
+// extra step per pass through the source list) so that a full walk would pair every value of one list with every value of
+// another; the walk is cut to the budget of the tier.
+func TestC20TreeSpellings(t *testing.T) {
+	st := vstat.For(prop)
+	shard, shards := vstat.Shard()
+	type srcSp struct {
+		cwd   string
+		rel   bool
+		slash bool
+	}
+	var srcs []srcSp
+	for _, cwd := range Cwds {
+		for _, rel := range []bool{false, true} {
+			for _, slash := range []bool{false, true} {
+				if rel && cwd == "" {
+					continue
+				}
+				srcs = append(srcs, srcSp{cwd, rel, slash})
+			}
+		}
+	} // 14
+	var dests, zips []Spell
+	for _, rel := range []bool{true, false} {
+		for _, d := range Decors {
+			zips = append(zips, Spell{Rel: rel, Decor: d})
+			for _, tr := range Trails {
+				dests = append(dests, Spell{Rel: rel, Decor: d, Trail: tr})
+			}
+		}
+	}
+	dests = append(dests, Spell{}) // 49
+	zips = zips[:11]               // 11: the last one (absolute, lead2) is met through the destination list
+	filters := []struct {
+		kind string
+		arg  Name
+	}{{"nil", ""}, {"suffix", ".txt"}, {"dir", "src"}, {"notdir", "src"}, {"suffix", "src/f.txt"}}
+	total := vstat.Pick(154, 14*49*11/7)
+	ran := 0
+	for n := 0; n < total; n++ {
+		if n%shards != shard {
+			continue
+		}
+		s, f := srcs[n%len(srcs)], filters[n%len(filters)]
+		c := TreeCase{Filter: f.kind, Arg: f.arg, Recursive: n%3 != 0, TrailingSlash: s.slash, DestExists: (n/len(srcs))%2 == 0,
+			Spelling: Spelling{Cwd: s.cwd, Src: Spell{Rel: s.rel}, Zip: zips[n%len(zips)], Dest: dests[(n+n/len(srcs))%len(dests)]},
+			Dirs:     []Dir{{Parent: -1, Name: "a"}, {Parent: 0, Name: "src"}},
+			Files: []File{
+				{Dir: -1, Name: "plain.txt", Content: Content{Data: []byte("plain")}},
+				{Dir: -1, Name: "src", Content: Content{Data: []byte("a file named like the source directory")}},
+				{Dir: 0, Name: "mysrc.txt", Content: Content{Data: []byte("name contains it")}},
+				{Dir: 1, Name: "f.txt", Content: Content{Data: []byte("below a/src")}},
+				{Dir: 1, Name: "src.d"},
+			},
+			Echo: []Echo{
+				{Kind: "abs", Dir: -1, Under: "backup", Content: Content{Data: []byte("mirror")}},
+				{Kind: "spelled", Dir: 0, File: "g.dat", Content: Content{Data: []byte("relative spelling again")}},
+				{Kind: "spelled", Dir: -1, Pre: "copy-of-", Suf: ".bak", AsFile: true, Content: Content{Data: []byte("in a file name")}},
+				{Kind: "abs", Dir: 1, Suf: "~", Content: Content{Pad: 3000, Seed: 3}},
+				{Kind: "last", Dir: 1, Under: "src", File: "src"},
+			}}
+		if (n/3)%4 == 1 {
+			c.Rounds = []Round{{Remove: []DestOp{{Kind: "dir", Of: n}}, Edits: []Edit{{Of: 5, Op: "grow", Extra: Content{Data: []byte(" more")}}, {Of: n, Op: "delete"}}}}
+		}
+		info, v := RunTree(c)
+		if info.Infra != "" {
+			t.Fatalf("infra: %s", info.Infra)
+		}
+		st.Report(t, "TestC20TreeSpellings", c, v)
+		recordTree(c, info)
+		ran++
+	}
+	st.SetExhaustive("trees_under_spelled_arguments", map[string]any{"cases_this_shard": ran, "walk": total, "sources": len(srcs), "archives": len(zips), "destinations": len(dests), "shards": shards})
 }
 
 // ---------------------------------------------------------------------------------------------
